@@ -4,6 +4,7 @@ import SphericalVerif.Lemmas.GenAlg
 import SphericalVerif.Model.Matrix
 import SphericalVerif.Lemmas.Matrix
 import SphericalVerif.Props.GenMethod
+import SphericalVerif.Props.Matrix
 /-! GenRotM — **`_rotate` (the matrix route, the DEFAULT strategy of `Wigner.rotate` / `Modes.rotate`) as the Python text states it** is the
     model's `rotateMatrixEntry`.
 
@@ -147,6 +148,93 @@ theorem gen_rotate_matrix_sum (flm D : Int → Cx ℝ) (A : Nat) (cmin cmax cmp 
       = WignerDindex (ell : Int) ((j : Int) - ell) m cmin (-1) := by
     rw [dindex_default_affine (ell : Int) ((j : Int) - ell) m cmin]; ring
   rw [hidx, hD]
+
+/-- the generated contraction for one row, arbitrary (function) arrays: the fold over the slices the text computes -/
+theorem gen_evaluate_matrix_fold (mw Y : Int → Cx ℝ) (fv : Nat) (cmin modesL : Int) (st : φ) :
+    frdC (α := ℝ) (Gen.Wigner_evaluate_matrix_contract (α := ℝ) mw Y fv cmin 0 modesL 1 0 st) fv 0
+      = loopN (evalMatrixSlices cmin modesL).2.2.toNat (fun k (acc : Cx ℝ) =>
+          Cx.add acc (Cx.mul (mw ((evalMatrixSlices cmin modesL).1 + (k : Int))) (Y ((evalMatrixSlices cmin modesL).2.1 + (k : Int))))) ⟨zero, zero⟩ := by
+  unfold Gen.Wigner_evaluate_matrix_contract evalMatrixSlices
+  have e1 : ((1 : Int) - 0).toNat = 1 := rfl
+  have e2 : Int.toNat 1 = 1 := rfl
+  simp only [e1, e2, loopN, Nat.cast_zero, Int.zero_add, Int.add_zero, Int.zero_mul, Int.sub_zero, GenFill.frdC_fwrC_same]
+  rfl
+
+/-- **the matrix branch of `Wigner.evaluate` from the Python text, exact reals, ANY arrays**: the value is
+    `Σ_{ℓ=c}^{L} Σ_m mw[ℓ(ℓ+1)+m] · Y[Yindex(ℓ, m, c)]` — each weight meets the entry of `Y` that the calculator's own `Yindex` gives to the same
+    `(ℓ, m)` (`c` the calculator's `ell_min`, `L` the modes' `ell_max`, `c ≤ L + 1`) -/
+theorem gen_evaluate_matrix_sum (mw Y : Int → Cx ℝ) (fv : Nat) (c L : Nat) (hn : (c : Int) ≤ L + 1) (st : φ) :
+    toC (frdC (α := ℝ) (Gen.Wigner_evaluate_matrix_contract (α := ℝ) mw Y fv (c : Int) 0 (L : Int) 1 0 st) fv 0)
+      = ∑ ell ∈ Finset.Icc c L, ∑ m ∈ Finset.Icc (-(ell : ℤ)) ell, toC (mw ((ell : Int) * ((ell : Int) + 1) + m)) * toC (Y (Yindex (ell : Int) m (c : Int))) := by
+  rw [gen_evaluate_matrix_fold, Matrix.eval_slices_closed_pos (c : ℤ) L (by omega) hn]
+  simp only
+  obtain ⟨d, hd⟩ : ∃ d : ℕ, L + 1 = c + d := ⟨L + 1 - c, by omega⟩
+  have hnat : (((L : ℤ) + 1) ^ 2 - (c : ℤ) ^ 2).toNat = d * (2 * c + d) := by
+    have : ((L : ℤ) + 1) = c + d := by exact_mod_cast hd
+    rw [this]
+    have : ((c : ℤ) + d) ^ 2 - (c : ℤ) ^ 2 = ((d * (2 * c + d) : ℕ) : ℤ) := by push_cast; ring
+    rw [this, Int.toNat_natCast]
+  rw [hnat, toC_dotLoop (fun k => mw ((c : ℤ) ^ 2 + (k : ℤ))) (fun k => Y (0 + (k : ℤ)))]
+  rw [sum_range_eq_sum_yindex (fun x => toC (mw ((c : ℤ) ^ 2 + x)) * toC (Y (0 + x))) c d]
+  rw [← hd, Finset.Ico_add_one_right_eq_Icc]
+  apply Finset.sum_congr rfl
+  intro ell hell
+  rw [Finset.mem_Icc] at hell
+  apply Finset.sum_congr rfl
+  intro m hm
+  have hcl : (c : ℤ) ≤ ell := by exact_mod_cast hell.1
+  have hidx : (c : ℤ) ^ 2 + Yindex ell m c = (ell : ℤ) * (ell + 1) + m := by
+    rw [yindex_closed _ _ _ hcl]; ring
+  rw [hidx, zero_add]
+
+/-- below `|s|` the generated body of `Wigner.sYlm` stores the literal zero -/
+theorem sYlm_rotor_low (L P : Nat) (ell_min sw : Int) (zI aI YI : Nat) (a b d g h : Int → ℝ) (ht : GenH.TabOK L a b d g h) (imsqrt : Cx ℝ → ℝ)
+    (cpowi : Cx ℝ → Int → Cx ℝ) (R : Int → ℝ) (F : φ) (h0 : 0 ≤ ell_min) (hz : 2 < zI) (ha : 2 < aI) (hza : zI ≠ aI) (hsP : sw.natAbs ≤ P)
+    (hsL : max ((sw.natAbs : Nat) : Int) ell_min ≤ (L : Int) + 1)
+    (ell : Nat) (m : Int) (h1 : ell_min ≤ ell) (hl : ell ≤ L) (hlow : ell < sw.natAbs) (hm : m.natAbs ≤ ell) :
+    frdC (α := ℝ) (Gen.Wigner_sYlm_rotor (α := ℝ) R zI g h (L : Int) (P : Int) a b d GenH.idW GenH.idV GenH.idX YI aI imsqrt cpowi sw ell_min F) YI
+        (Yindex (ell : Int) m ell_min) = ⟨zero, zero⟩ := by
+  rw [GenMethod.sYlm_rotor_eq L P ell_min sw zI aI YI a b d g h imsqrt cpowi R F hz ha hza,
+    GenChain.gen_Y_chain L P ell_min sw zI aI YI a b d g h ht imsqrt _ R F (fun _ => R 0) h0 hsP hsL ell m h1 hl (by omega) (by omega)]
+  unfold Model.objY Model.sYlmEntry
+  simp only []
+  rw [if_pos (by exact_mod_cast hlow)]
+
+/-- **The default route of `Wigner.evaluate`, method body and kernels from the source, is `Σ_{ℓ,m} f_{ℓm} ₛY_{ℓm}(R)`** with the documented harmonics:
+    the generated body of `Wigner.sYlm` fills `Y`, the generated slice bounds and contraction pair every weight with the harmonic of the same
+    `(ℓ, m)`; terms with `ℓ < |s|` vanish (the array holds the literal zero there).  Exact reals, every unit quaternion, every calculator with
+    `ell_min = c ≤ L + 1`, `modes.ell_max = L ≤ ell_max`, `|s| ≤ mp_max`. -/
+theorem evaluate_matrix_route_doc (Lc P : Nat) (c : Nat) (sw : Int) (zI aI YI fv : Nat) (a b d g h : Int → ℝ) (ht : GenH.TabOK Lc a b d g h) (imsqrt : Cx ℝ → ℝ)
+    (hsq : ∀ w : Cx ℝ, w.re ^ 2 + w.im ^ 2 = 1 → 2 * (imsqrt w) ^ 2 = 1 - w.re) (cpowi : Cx ℝ → Int → Cx ℝ)
+    (R : Int → ℝ) (hR : R 0 ^ 2 + R 1 ^ 2 + R 2 ^ 2 + R 3 ^ 2 = 1)
+    (hY : CPow.toC (cpowi (Model.eulerPhases (R 0) (R 1) (R 2) (R 3)).2.2 ((Int.natAbs sw : Nat) : Int))
+        = CPow.toC (Model.eulerPhases (R 0) (R 1) (R 2) (R 3)).2.2 ^ sw.natAbs) (F : φ)
+    (hz : 2 < zI) (ha : 2 < aI) (hza : zI ≠ aI) (hsP : sw.natAbs ≤ P) (hsLc : (sw.natAbs : Int) ≤ (Lc : Int) + 1)
+    (mw : Int → Cx ℝ) (L : Nat) (hL : L ≤ Lc) (hn : (c : Int) ≤ L + 1) :
+    toC (frdC (α := ℝ) (Gen.Wigner_evaluate_matrix_contract (α := ℝ) mw
+        (fun i => frdC (α := ℝ) (Gen.Wigner_sYlm_rotor (α := ℝ) R zI g h (Lc : Int) (P : Int) a b d GenH.idW GenH.idV GenH.idX YI aI imsqrt cpowi sw (c : Int) F) YI i)
+        fv (c : Int) 0 (L : Int) 1 0
+        (Gen.Wigner_sYlm_rotor (α := ℝ) R zI g h (Lc : Int) (P : Int) a b d GenH.idW GenH.idV GenH.idX YI aI imsqrt cpowi sw (c : Int) F)) fv 0)
+      = ∑ ell ∈ Finset.Icc c L, ∑ m ∈ Finset.Icc (-(ell : ℤ)) ell, toC (mw ((ell : Int) * ((ell : Int) + 1) + m)) *
+          (if sw.natAbs ≤ ell then (((-1) ^ sw.natAbs * Real.sqrt ((2 * (ell : ℝ) + 1) / (4 * Real.pi)) : ℝ) : ℂ)
+              * DDef.docD ell (DDef.Ra (R 0) (R 3)) (DDef.Rb (R 1) (R 2)) m (-sw) else 0) := by
+  rw [gen_evaluate_matrix_sum mw _ fv c L hn]
+  apply Finset.sum_congr rfl
+  intro ell hell
+  rw [Finset.mem_Icc] at hell
+  apply Finset.sum_congr rfl
+  intro m hm
+  rw [Finset.mem_Icc] at hm
+  congr 1
+  by_cases hs : sw.natAbs ≤ ell
+  · rw [if_pos hs]
+    have := GenMethod.sYlm_rotor_doc Lc P (c : Int) sw zI aI YI a b d g h ht imsqrt hsq cpowi R hR hY F (by omega) hz ha hza hsP ell m
+      (by exact_mod_cast hell.1) (by omega) hs (by omega)
+    rw [show CPow.toC = toC from rfl] at this
+    exact this
+  · rw [if_neg hs, sYlm_rotor_low Lc P (c : Int) sw zI aI YI a b d g h ht imsqrt cpowi R F (by omega) hz ha hza hsP (by omega) ell m
+      (by exact_mod_cast hell.1) (by omega) (by omega) (by omega)]
+    exact toC_zero
 
 /-- **The default route of `Wigner.rotate`, method body and kernels from the source, realises the documented rotation law**: the generated body
     of `Wigner.D` fills the flat array, the generated `_rotate` contracts the row of weights with it, and output weight (ℓ, m) is
